@@ -1,6 +1,7 @@
 package main
 
 import (
+	"os"
 	"go/ast"
 	"fmt"
 	"go/constant"
@@ -1080,6 +1081,9 @@ func (ex *Exec) enterLoop(f *frame, st *State, h *ssa.BasicBlock, li *loopInfo, 
 		loopEntryHeap[k] = v
 	}
 	mods := ex.V.loopMods(f.fn, li)
+	if os.Getenv("GOVC_DEBUG_LOOP") != "" {
+		fmt.Fprintf(os.Stderr, "loop in %s (inline=%v): mods=%v\n", f.fn, f.inline, mods)
+	}
 	for _, c := range mods {
 		if c == "*" {
 			for _, k := range sortedKeys(ex.V.compSorts) {
